@@ -88,6 +88,62 @@ def traffic(tag):
     return st
 
 
+def fs_rows_of(sl, keydir):
+    """key-directory calls from an strace log, in order: mkdir / restrict (chmod) / create (a file in the directory)"""
+    fs_rows = []
+    for line in open(sl, errors="replace"):
+        if keydir not in line:
+            continue
+        m = re.search(r"\b(mkdir|mkdirat|chmod|fchmodat|chown|fchownat|openat|creat|rename|renameat2?)\(", line)
+        if not m or " = -1 " in line:
+            continue
+        call = m.group(1)
+        if call.startswith("mkdir") and re.search(r'"%s/?"' % re.escape(keydir), line):
+            fs_rows.append({"e": "fs", "op": "mkdir", "mode": "default"})
+        elif call in ("chmod", "fchmodat") and re.search(r'"%s/?"' % re.escape(keydir), line):
+            mm = re.search(r", 0?(\d{3,4})\)?", line)
+            fs_rows.append({"e": "fs", "op": "restrict", "mode": "0" + mm.group(1)[-3:] if mm else "?"})
+        elif call in ("openat", "creat") and ("O_CREAT" in line or call == "creat") and keydir + "/" in line:
+            fs_rows.append({"e": "fs", "op": "create", "mode": "file"})
+    return fs_rows
+
+
+def ownership_fault(c):
+    """fault dimension: every chown of the latch run fails (EPERM: no CAP_CHOWN, a seccomp filter, a volume that cannot
+    record ownership).  The directory must still be restricted (mode 0700) before the first key file is created in it."""
+    import subprocess
+    name = "c12_chownfail"
+    d, exe = rig.prepare(name)
+    steps = [plan("GET /secure-channel/status", 200, status_doc(None)),
+             plan("POST /secure-channel/key", 200, key_doc(G[0], CAN["ok1"])),
+             plan("POST /secure-channel/key/*", 200, ""),
+             {"op": "start_key_keeper", "interval_ms": 40}, {"op": "sleep", "ms": 1200}, {"op": "key_state", "tag": "chownfail"}]
+    sp, out = os.path.join(d, "script.json"), os.path.join(d, "trace.ndjson")
+    json.dump({"steps": steps, "hosts": rig.HOSTS, "proxy_port": 3080, "drain_ms": 100}, open(sp, "w"))
+    env = dict(os.environ, VERIF_CMD="rig", VERIF_SCRIPT=sp, VERIF_OUT=out, RUST_BACKTRACE="0")
+    sl = os.path.join(d, "strace.log")
+    calls = "chown,fchown,fchownat,lchown"
+    launcher = ("strace -f -qq -o %s -e trace=mkdir,mkdirat,chmod,fchmod,fchmodat,%s,openat,creat -e inject=%s:error=EPERM %s"
+                % (sl, calls, calls, exe))
+    try:
+        p = subprocess.run(["unshare", "-n", "sh", "-c", rig.NS_SETUP + " && exec " + launcher], env=env, cwd=d,
+                           stdout=subprocess.PIPE, stderr=subprocess.STDOUT, timeout=180, text=True, errors="replace")
+    except subprocess.TimeoutExpired:
+        raise util.ToolError("chown-fault run timed out")
+    keydir = os.path.join(d, "keys")
+    log = open(sl, errors="replace").read() if os.path.exists(sl) else ""
+    injected = sum(1 for l in log.splitlines() if "(INJECTED)" in l and keydir in l)
+    rows = fs_rows_of(sl, keydir)
+    if os.path.isdir(keydir):
+        rows.append({"e": "sink", "sink": "keydir", "where": "keys (chown fails)", "canary": False, "phase": "chownfail",
+                     "mode": "%04o" % stat.S_IMODE(os.stat(keydir).st_mode)})
+    c.extra["chown_fault"] = {"injected_on_key_dir": injected, "key_files_created": sum(1 for r in rows if r.get("op") == "create")}
+    shutil.rmtree(d, ignore_errors=True)
+    if not any(r.get("op") == "create" for r in rows):
+        raise util.ToolError("chown-fault run: no key file was created (rc=%s)" % p.returncode)
+    return [{"e": "fs", "op": "mkdir", "mode": "default"}] + rows if not any(r.get("op") == "mkdir" for r in rows) else rows
+
+
 def crash_leftovers(c, needles):
     """fault dimension: the process is killed at the k-th rename of the latch run (the temp-file -> final-name step of
     whatever is being published: the key file among them); whatever it leaves behind anywhere -- the run directory and a
@@ -260,23 +316,7 @@ def run(c):
     if os.path.isdir(keydir):
         mode = stat.S_IMODE(os.stat(keydir).st_mode)
         rows.append({"e": "sink", "sink": "keydir", "where": "keys", "canary": False, "phase": "final", "mode": "%04o" % mode})
-    # key-directory calls from strace, in order
-    fs_rows = []
-    sl = os.path.join(d, "strace.log")
-    for line in open(sl, errors="replace"):
-        if keydir not in line:
-            continue
-        m = re.search(r"\b(mkdir|mkdirat|chmod|fchmodat|chown|fchownat|openat|creat|rename|renameat2?)\(", line)
-        if not m or " = -1 " in line:
-            continue
-        call = m.group(1)
-        if call.startswith("mkdir") and re.search(r'"%s/?"' % re.escape(keydir), line):
-            fs_rows.append({"e": "fs", "op": "mkdir", "mode": "default"})
-        elif call in ("chmod", "fchmodat") and re.search(r'"%s/?"' % re.escape(keydir), line):
-            mm = re.search(r", 0?(\d{3,4})\)?", line)
-            fs_rows.append({"e": "fs", "op": "restrict", "mode": "0" + mm.group(1)[-3:] if mm else "?"})
-        elif call in ("openat", "creat") and ("O_CREAT" in line or call == "creat") and keydir + "/" in line:
-            fs_rows.append({"e": "fs", "op": "create", "mode": "file"})
+    fs_rows = fs_rows_of(os.path.join(d, "strace.log"), keydir)
     if not any(r["op"] == "create" for r in fs_rows):
         raise util.ToolError("strace saw no file creation in the key directory")
     c.extra["key_dir_exists_at_end"] = os.path.isdir(keydir)
@@ -288,7 +328,7 @@ def run(c):
         if r_["canary"] and r_["sink"] != "keyfile":
             leaks.setdefault((r_["sink"], ("key material",)), []).append((r_["where"], ""))
     rows += krows
-    allrows = fs_rows + rows
+    allrows = fs_rows + rows + ownership_fault(c)
     remaining = allrows
     c.traces_validated += 1
     for _ in range(10):
